@@ -1268,6 +1268,10 @@ class Num:
                 esz = ta.get("psz") or 1
                 if esz == 1:
                     return a - b  # ptrdiff_t: signed, no wrap
+                d_ = a - b
+                if all(cf % esz == 0 for cf in d_.t.values()):
+                    # the byte difference is a multiple of the element size term by term: the quotient is exact
+                    return Poly({m_: cf // esz for m_, cf in d_.t.items()})
                 q = self.fresh(st, "pdiff", None, (None, None))
                 st.add_eq(Poly.atom(q) * esz - (a - b))
                 return Poly.atom(q)
